@@ -32,7 +32,7 @@ LEVEL_NOTE = ("fake API client and component graph; real status trackers fed wit
 RULE = ("battery: batdata generator (C01 domain) x outcome vector over the commanded inverters; pv: 1-6 solar inverters "
         "with arbitrary lower bounds, request negative/zero/positive, x outcome vector. distinct = canonical case "
         "JSON; non-trivial = >=2 set_power calls and at least one non-ok outcome or non-zero excess")
-REQUIRED_BUCKETS = ["pv-inverter-without-a-reported-bound",
+REQUIRED_BUCKETS = ["battery-group-outside-the-request-present", "pv-inverter-without-a-reported-bound",
                     "battery", "pv", "all-ok", "some-failed", "all-failed", "outcome:range", "outcome:client",
                     "outcome:exc", "outcome:hang", "excess-nonzero", "multi-inverter-group", "followup-request", "pv-concurrent-requests",
                     "reply-shortly-before-a-fractional-timeout", "unusable-battery-group-requested", "calls-answer-after-different-delays"]
@@ -77,6 +77,9 @@ def gen(rng: Any, tier: str, i: int) -> Any:
             # calls of one request answer after different delays (an early error next to a slower success)
             tmo = case["timeout"]
             case["lat_vec"] = [rng.choice([0.0, 0.0, 0.06 * tmo, 0.2 * tmo, 0.9 * tmo]) for _ in range(n_inv)]
+        if rng.random() < 0.3:
+            # the microgrid has one more battery group, healthy and streaming, that the request does not name
+            case["bystander"] = True
         if len(case["groups"]) >= 2 and rng.random() < 0.3:
             # one requested battery group is unusable (its batteries report SoC NaN): it must not be commanded and
             # must appear in neither component set of the result
@@ -120,7 +123,8 @@ async def _battery_run(case: dict[str, Any], vec: list[str], out: dict[str, Any]
 
     groups = [([batdata.bat_id(g, j) for j in range(len(grp["bats"]))],
                [batdata.inv_id(g, j) for j in range(len(grp["invs"]))]) for g, grp in enumerate(case["groups"])]
-    comps, conns = fakes.battery_topology(groups)
+    BY_BAT, BY_INV = 990, 995
+    comps, conns = fakes.battery_topology(groups + ([([BY_BAT], [BY_INV])] if case.get("bystander") else []))
     api = fakes.install_connection_manager(comps, conns)
     inv_ids = [i for _, invs in groups for i in invs]
     for j, (iid, oc) in enumerate(zip(inv_ids, vec)):
@@ -141,6 +145,10 @@ async def _battery_run(case: dict[str, Any], vec: list[str], out: dict[str, Any]
                 await api.feed(batdata.bat_id(g, j), batdata.mk_battery(batdata.bat_id(g, j), b, now))
             for j, i in enumerate(grp["invs"]):
                 await api.feed(batdata.inv_id(g, j), batdata.mk_inverter(batdata.inv_id(g, j), i, now))
+        if case.get("bystander"):
+            await api.feed(BY_BAT, batdata.mk_battery(BY_BAT, {"soc": 50.0, "lo": 10.0, "hi": 90.0, "cap": 5000.0, "il": -9000.0,
+                                                             "el": 0.0, "eu": 0.0, "iu": 9000.0}, now))
+            await api.feed(BY_INV, batdata.mk_inverter(BY_INV, {"il": -9000.0, "el": 0.0, "eu": 0.0, "iu": 9000.0}, now))
 
     await feed_all()
     await asyncio.sleep(0.5)
@@ -156,7 +164,7 @@ async def _battery_run(case: dict[str, Any], vec: list[str], out: dict[str, Any]
         while res_rx._q:  # noqa: SLF001  (exactly one result per processed request)
             extra.append(repr(res_rx.consume())[:200])
         out["rounds"].append({"result": res, "calls": [dict(c) for c in api.calls], "request": req, "extra_results": extra,
-                              "inv_bats": {i: sorted(bats) for bats, invs in groups for i in invs}})
+                              "inv_bats": {**{i: sorted(bats) for bats, invs in groups for i in invs}, BY_INV: [BY_BAT]}})
         if k + 1 < n_req:
             await asyncio.sleep(0.2)
             await feed_all()
@@ -271,6 +279,9 @@ def _judge(case: dict[str, Any], vec: list[str], rnd: dict[str, Any], rec: Any, 
         rec.violation("powers-do-not-add-up-to-request", {**w, "sum": succ + failed + exc})
     if scomp & fcomp:
         rec.violation("succeeded-and-failed-components-overlap", w)
+    if any(c["id"] == 995 for c in calls) or 990 in (scomp | fcomp):
+        rec.violation("component-outside-the-request-was-commanded-or-reported", w)
+        return
     addressed = {b for c in calls for b in rnd["inv_bats"][c["id"]]}
     if case.get("unusable") is not None and case["kind"] == "battery":
         dead = {batdata.bat_id(case["unusable"], j) for j in range(len(case["groups"][case["unusable"]]["bats"]))}
@@ -307,6 +318,8 @@ def check(case: dict[str, Any], rec: Any) -> None:
     import random
 
     rec.bucket(case["kind"])
+    if case.get("bystander"):
+        rec.bucket("battery-group-outside-the-request-present")
     if case.get("nan_bound") is not None:
         rec.bucket("pv-inverter-without-a-reported-bound")
     if case.get("unusable") is not None:
